@@ -574,6 +574,14 @@ def _may_iterate(t: T, obj: T) -> bool:
         if it.op == "binop" and it.args[0] == "Add":
             return holds(it.args[1], depth + 1) or holds(it.args[2],
                                                          depth + 1)
+        if it.op == "mut" and it.args[1] in ("append", "extend", "insert"):
+            # a list that was grown: what it held plus what was added
+            return holds(it.args[0], depth + 1) or any(
+                holds(T("list", a), depth + 1) or holds(a, depth + 1)
+                for a in it.args[2])
+        if it.op in ("loopvar", "loopout"):
+            return holds(it.args[2], depth + 1) or (
+                it.op == "loopout" and holds(it.args[3], depth + 1))
         return False
     return holds(base.args[0])
 
